@@ -25,7 +25,9 @@ RULE = ("scripts over 2-3 real kv.DB nodes (kv.Open pipelines, memkv engines, mo
         "quiescence; (E) a key overwritten while feedback for its previous version is in flight, then sweeps; (D) "
         "malformed: versions <= 0, leaseholder 0/4095, incoherent duplicates, unknown senders/leaseholders/indices. 25% of "
         "the scripts add storage faults: the node's engine (wrapped) refuses to commit the next ingress transaction that "
-        "wrote something, usually followed by the same delivery again. "
+        "wrote something, or the Set of one key's value / digest inside it, usually followed by the same delivery again; "
+        "30% of the one-creator scripts contain a DB.Set/Delete during which the leaseholder cannot flush its version "
+        "counter (not acknowledged; that node's kv layer is then reopened and the key written again). "
         "Extra phase = the space of the known findings, each family with the only codes it may produce: two creators "
         "of one key (G, Bd, D2), recovery split from its high-water read / two peers / restarts (F, R), unfair sweeps "
         "on 3 nodes (U). Non-trivial = some key changed its digest at least twice on one node, a redelivery was "
@@ -114,7 +116,7 @@ def life_op(rng, nodes, owner, mode):
         if mode == "one":
             own = owner.setdefault(k, n)
             if rng.random() < 0.25:
-                return {"op": "del", "n": own, "k": k}
+                return {"op": "del", "n": own, "k": k, "own": True}
             if n != own and rng.random() < 0.35:
                 # the creator writes, gossips to n, then n writes without a lease option: n holds the
                 # digest for sure, so the write must be forwarded to the creator
@@ -124,7 +126,7 @@ def life_op(rng, nodes, owner, mode):
             if n != own and rng.random() < 0.8:
                 # another node writes through the creator: explicit lease option
                 return {"op": "write", "n": n, "k": k, "v": rng.randrange(1, 90), "lease": own}
-            return {"op": "write", "n": own, "k": k, "v": rng.randrange(1, 90), "lease": rng.choice([0, 0, own])}
+            return {"op": "write", "n": own, "k": k, "v": rng.randrange(1, 90), "lease": rng.choice([0, 0, own]), "own": True}
         if rng.random() < 0.25:
             return {"op": "del", "n": n, "k": k}
         return {"op": "write", "n": n, "k": k, "v": rng.randrange(1, 90),
@@ -272,7 +274,7 @@ def gen_cases(rng, tier, n):
             out.append(gen_E(rng))
         else:
             out.append(gen_D(rng))
-    return [add_cancels(rng, add_faults(rng, c)) for c in out]
+    return [add_cancels(rng, add_faults(rng, add_ctrfaults(rng, c))) for c in out]
 
 
 # ---- families of the extra phase (known-finding space)
@@ -425,6 +427,32 @@ def add_cancels(rng, c, p=0.3):
     return c
 
 
+def add_ctrfaults(rng, c, p=0.3):
+    """the leaseholder cannot flush its version counter during a write it issues on its own key: the
+    write is not acknowledged; the step reopens that node's kv layer; the same key is written again"""
+    if c.get("fam") != "B" or rng.random() > p:
+        return c
+    ops = []
+    hit = False
+    for o in c["ops"]:
+        if o.get("own") and o["op"] in ("write", "del") and rng.random() < 0.3:
+            f = json.loads(json.dumps(o))
+            f["ctrfail"] = True
+            ops.append(f)
+            hit = True
+            if rng.random() < 0.7:
+                ops.append({"op": "write", "n": o["n"], "k": o["k"], "v": rng.randrange(1, 90), "lease": 0, "own": True})
+            continue
+        ops.append(o)
+    if hit:
+        # the step restarts a node: keep the final state non-quiescent (see gen_B)
+        last = [o for o in ops if o.get("own") and o["op"] == "write"]
+        if last:
+            ops.append({"op": "write", "n": last[-1]["n"], "k": last[-1]["k"], "v": rng.randrange(1, 90), "lease": 0})
+    c["ops"] = ops
+    return c
+
+
 def add_faults(rng, c, p=0.25):
     """storage faults: the engine refuses to commit the next ingress transaction of a node"""
     if rng.random() > p:
@@ -435,7 +463,13 @@ def add_faults(rng, c, p=0.25):
             tgt = o["n"] if o["op"] != "round" else rng.choice([o["i"], o["j"]])
             if rng.random() < 0.08:
                 tgt = rng.choice(c["nodes"] + [8])
-            ops.append({"op": "fail", "n": tgt})
+            f = {"op": "fail", "n": tgt}
+            if rng.random() < 0.5:
+                # the Set of one key's value or digest fails instead of the commit
+                ks = [it["k"] for it in o["batch"]] if o["op"] == "inject" else KEYS
+                f["k"] = rng.choice(ks + [rng.choice(KEYS + XKEYS)])
+                f["what"] = rng.choice(["val", "dig"])
+            ops.append(f)
             ops.append(o)
             if rng.random() < 0.6:
                 ops.append(json.loads(json.dumps(o)))      # at-least-once: the same delivery again
@@ -452,6 +486,8 @@ def c_op(it):
 
 def c_step(o):
     t = o["op"]
+    if t in ("write", "del") and o.get("ctrfail"):
+        return "SWriteCF %s %s %s %s" % (cN(o["n"]), cN(o["k"]), cN(o.get("lease", 0) if t == "write" else 0), cbool(t == "del"))
     if t == "write":
         return "SWrite %s %s %s %s" % (cN(o["n"]), cN(o["k"]), cN(o["v"]), cN(o.get("lease", 0)))
     if t == "del":
@@ -524,10 +560,13 @@ def paired_steps(case, r):
     ops = case["ops"]
     for i, (o, d) in enumerate(zip(ops, r["outs"])):
         if o["op"] == "fail":
-            pending = o["n"] if i + 1 < len(ops) and ops[i + 1]["op"] in INGEST else None
+            pending = None
+            if i + 1 < len(ops) and ops[i + 1]["op"] in INGEST:
+                pending = ("(FSet %s %s)" % (cN(o["n"]), cN(o.get("k", 0)))) if o.get("what") in ("val", "dig") \
+                    else "(FCommit %s)" % cN(o["n"])
             continue
         if pending is not None and o["op"] in INGEST:
-            out.append(("SFaulty %s (%s)" % (cN(pending), c_gstep(o)), d))
+            out.append(("SFaulty %s (%s)" % (pending, c_gstep(o)), d))
         else:
             out.append((c_step(o), d))
         pending = None
@@ -574,6 +613,10 @@ def histogram(case, r):
         ks.append("op=" + o["op"])
         if o.get("cancel"):
             ks.append("write_under_cancelled_per_call_context")
+        if o.get("ctrfail"):
+            ks.append("write_under_counter_flush_fault")
+        if o.get("what"):
+            ks.append("fail_set_of_" + o["what"])
     if r.get("fired"):
         ks.append("ingress_commit_failures_hit=%d" % min(r["fired"], 5))
     outs = r.get("outs") or []
